@@ -38,7 +38,10 @@ def gen_program(rng):
             if rng.random() < 0.5:
                 shown.append("(newline)")
         elif rng.random() < 0.3:
-            shown.append('(display "%s")' % rng.choice(["ok", "a b", "(", "x;y"]))
+            shown.append('(display "%s")' % rng.choice(["ok", "a b", "(", "x;y", "\u00e9t\u00e9", "\u03bb x", "\u4e2d\u6587", "a\U0001f600b", "na\u00efve (caf\u00e9)"]))
+        if rng.random() < 0.1:
+            # characters outside ASCII in the program text: a file is its characters, not its bytes
+            shown.append(rng.choice(["(display #\\\u03bb)", "(display (list #\\\u00e9 #\\\u4e2d))", '(display (string? "\u00fc"))', '(display (list "\u00e9" #\\x e9 "\U0001f600"))'.replace("x e9", "xe9")]))
     fault = None
     if rng.random() < 0.5:
         shown, pos, kind, ctx = P.inject_fault(rng, g, shown)
